@@ -180,6 +180,11 @@ void run_case(Tape& t, Stats& st) {
 }
 
 void run_sweep(Stats& st) {
+	// maps of more than 65536 tiles whose tile count is not a multiple of 65536 (whatever block size a reader takes the tile array in): accepted with
+	// exactly width x height tiles, through memory and through a file; a sample of prefixes rejected
+	for (unsigned v = 0; v < 3; ++v) { if (!sw("many_tiles", v)) continue; const unsigned dims[3][2] = {{9, 129}, {10, 65}, {7, 1000}};
+		LMap m; m.lgWidth = dims[v][0]; m.height = dims[v][1]; m.tiles.resize(size_t(m.height) << m.lgWidth); for (size_t i = 0; i < m.tiles.size(); ++i) m.tiles[i] = uint32_t(i * 2654435761u + v); m.versionTag = 0x1011; m.mappings = {{1, 2, 3, 4}};
+		valid_case(m, v & 1, st, false, 40009); }
 	// valid maps: all prefixes
 	for (unsigned w = 0; w < 4; ++w) { if (!sw("valid_prefixes", w)) continue; valid_case(small_seed(w), w & 1, st, true, 1); }
 	// every header/length field x boundary value, on each seed
